@@ -301,7 +301,9 @@ def gen_cases(run):
         cases.append(dict(family=family, mode=mode, K=len(counts), counts=list(counts),
                           shape=shape or r.choice(['flat', 'col']), order_seed=r.randint(0, 10 ** 6),
                           dseed=r.randint(0, 10 ** 6), per_scale=per_scale or (3 if quick else 8),
-                          eps2=r.choice([1e-6, 1e-2, 0.2, 0.45])))
+                          # eps = 0 (clamp to [0,1]) is inside the claim where the affine decode sums to one (prevalence mode, binary
+                          # column): Props/C13 decode_valid_eps0; for zero_one K >= 3 an all-non-positive row divides by zero there
+                          eps2=r.choice([1e-6, 1e-2, 0.2, 0.45] + ([0.0, 0.0] if (mode == 'prevalence' or len(counts) == 2) else []))))
 
     # exhaustive count vectors, entries in {0,1,2,5,50}, not all zero
     for K in range(2, (3 if quick else 4) + 1):
